@@ -229,4 +229,40 @@ def rule_fetcher(ctx):
                "fetcher does not bound the request by wait_until_queued / wait_until_persisted", f.loc(c["t"].get("ln")))
 
 
-RULES = [("C19.1", rule_only_available), ("C19.2", rule_atomic_accept), ("C19.3", rule_retry), ("C19.4", rule_completion), ("C19.6", rule_fetcher)]
+def rule_peer_state_verified(ctx):
+    R = "C19.7"
+    ctx.rule(R, "what a peer 'has announced' is a verified BlockStoreState: in the push_block_store_state handler the received state replaces the per-connection announced state only after BlockStoreState::verify succeeded, and nothing else writes that watch")
+    # the handler is recognised by its role: an rpc::Handler::handle implementation in gossip (its Rpc type is not part of the path)
+    hs = [f for f in ctx.F.fns if not f.in_testonly() and f.crate == NET and "/gossip/" in f.file and f.kind in ("fn", "method") and f.qname.endswith("rpc::Handler>::handle")]
+    hs = [ctx.F.body_of(f) for f in hs]
+    bodies = []
+    for f in hs:
+        for g in [f] + family(ctx, f):
+            if g not in bodies:
+                bodies.append(g)
+    pubs = []
+    for g in bodies:
+        Tg = ctx.T(g)
+        for c in Tg.calls():
+            if c["q"].startswith("tokio::sync::watch::Sender::send") and any(g.ty(i).s == BSS for i in c["t"]["f"].get("ga", [])):
+                pubs.append((g, c))
+    ctx.floor(R, "publications of the announced state in the handler", len(pubs), 1)
+    for g, c in pubs:
+        e = Q.success_edges(ctx, g, lambda b: b[0] == "call" and b[1] == BSS + "::verify")
+        ok = bool(e) and ctx.cfg(g).must_pass(c["bb"], e)
+        a = ctx.T(g).args_of(c)
+        same = len(a) > 1 and any(x[0] == "call" and x[1] == BSS + "::verify" and x[2] and (x[2][0] == a[1] or x[2][0] in subterms(a[1]) or a[1] in subterms(x[2][0])) for blk in g.blocks if blk["t"]["k"] == "call" for x in [ctx.T(g).call_term(blk["t"])])
+        ctx.ob(R, "announced state verified before it is published", ok and same, "send_replace(req.state) is dominated by the success of req.state.verify()" if ok and same else
+               "a peer's block-store state is published as its announcement without (successful) verify() of that very state: requests can be handed to a peer for blocks an inconsistent announcement does not cover", g.loc(c["t"].get("ln")))
+    # nobody else writes a watch of BlockStoreState in the gossip runner (the announced state is only what the peer pushed)
+    others = []
+    for f in ctx.F.fns:
+        if f.in_testonly() or f.crate != NET or "/gossip/" not in f.file or f in bodies:
+            continue
+        for c in ctx.T(f).calls():
+            if c["q"].startswith("tokio::sync::watch::Sender::send") and any(f.ty(i).s == BSS for i in c["t"]["f"].get("ga", [])):
+                others.append("%s (%s)" % (root_fn(f).qname.split("::")[-1], c["q"].rsplit("::", 1)[1]))
+    ctx.ob(R, "single writer of the announced state", not others, "only the push_block_store_state handler writes a watch<BlockStoreState> in gossip" if not others else "the announced state is also written by %s" % others)
+
+
+RULES = [("C19.7", rule_peer_state_verified), ("C19.1", rule_only_available), ("C19.2", rule_atomic_accept), ("C19.3", rule_retry), ("C19.4", rule_completion), ("C19.6", rule_fetcher)]
